@@ -161,6 +161,12 @@ def judge(path, octkeys):
                     continue
                 cnt("tokens")
                 parts = tok.split(".")
+                if len(parts) == 3:
+                    sil = len(parts[0]) + 1 + len(parts[1])
+                    for m_ in (64, 128, 256, 512, 1000, 1024, 2048, 4096, 8192, 16384, 65536):
+                        if abs(sil - m_) <= 2:
+                            out["distinct"].add(("signing-input-length", sil))
+                            cnt("signing_inputs_within_2_of_a_buffer_size")
                 if len(parts) != 3:
                     viol("shape", "token does not have three segments", ev)
                     continue
@@ -205,7 +211,8 @@ def run(tier, seed, replay):
     rep.rule = ("random histories (3-17 steps) of header/claim set/del of every value type, enable_iat, time_offset (<=0, positive, 2^31, 2^40), "
                 "setkey (none, HS256, HS512, ES256, EdDSA, PS256, public-only), setcb (scripts that add/replace/delete headers and claims "
                 "incl. alg, typ, iat, nbf, exp; failing; selecting a public key) interleaved with generate at clock values {0,1,2^31,1.7e9,2^40,random}; "
-                "both providers. distinct = distinct (alg, iat on, exp on, nbf on, user typ?, user alg?, callback?, must-fail, NULL?, "
+                "both providers; then a size sweep (one string claim sized so that the signing input takes every length within +-12 of 64..65536 "
+                "under three header lengths; unsigned, HS256, ES256). distinct = distinct (alg, iat on, exp on, nbf on, user typ?, user alg?, callback?, must-fail, NULL?, "
                 "time claims preset?) tuples")
     rep.assumptions = ["Python's base64/json/hmac decode and re-verify tokens; ECDSA/EdDSA/PSS signatures are checked by the OpenSSL reference in the driver",
                        "clock supplied by the harness"]
@@ -217,6 +224,10 @@ def run(tier, seed, replay):
         args += ["--only", replay["witness"]["history"]]
     outs, crashes = vf.run_shards(b, args, vf.NCPU, rd, timeout=3000)
     rep.crash_violations(crashes)
+    if not replay:
+        outs_z, crashes_z = vf.run_shards(b, ["--mode", "size", "--seed", seed], vf.NCPU, rd, tag="z", timeout=3000)
+        rep.crash_violations(crashes_z, prefix="size:")
+        outs = outs + outs_z
     octkeys = {}
     for ev in vf.read_jsonl([]):
         pass
@@ -239,5 +250,6 @@ def run(tier, seed, replay):
     if not replay:
         vf.need(rep, rep.counters.get("tokens", 0) > 1000, "too few tokens generated")
         vf.need(rep, rep.counters.get("null_tokens", 0) > 50, "too few failing generates")
+        vf.need(rep, len([d for d in rep.distinct if d[0] == "signing-input-length"]) >= 50, "size sweep did not reach the lengths around the buffer sizes")
         vf.need(rep, rep.counters.get("hmac_checked_in_python", 0) > 100, "python HMAC oracle hardly used")
     return rep
